@@ -1,7 +1,7 @@
 SPECIFICATION Spec
 CONSTANTS
   Dev = "any"
-  MsgLists <- McMsgLists
+  MsgLists <- McDevMsgLists
   FragLens <- McFragLens
   CtlLens = {0, 125}
   MaxCtl = 1
